@@ -14,8 +14,53 @@ SPEC = {
                      "the server's snapshot at the notified session and serial (or the run's reader hands out "
                      "something else), or the run failed as a whole (RunFailed) because of what the server sent"},
     }],
-    "level_text": "PLACEHOLDER",
-    "level_note": "PLACEHOLDER",
-    "rule": "PLACEHOLDER",
-    "assumptions": [],
+    "level_text": "Theorems by induction over the list of validation runs and over the delta list (no bound on "
+                  "histories, serials, delta lists, objects): for every server history and every sequence of served "
+                  "answers (HTTP errors, 304, unusable XML, any session/serial, truncated / gapped / duplicated / "
+                  "reordered / mutated delta lists, files with wrong hashes, broken or foreign documents), under the "
+                  "premise that only files whose hash equals the announced one are the server's, a run reported as "
+                  "Updated leaves the local copy exactly equal to the server's snapshot at the notified serial, every "
+                  "other run reports unavailable / stale / current, no run fails as a whole, and every reachable "
+                  "local copy (also after failed runs) is the server's content at its stored serial. The code as found "
+                  "is proved to violate this in three ways (C25_unfixed_refuted; gapped delta list applied, 304 without "
+                  "a copy fails the run, a partially applied delta survives a failed snapshot); it was corrected "
+                  "(notes/C25-fix.patch) and the corrected code is what is modelled, proved and checked.",
+    "level_note": "Model hand-written from src/collector/rrdp/base.rs (try_update, update, not_modified, "
+                  "snapshot_update, delta_update, calc_deltas), src/collector/rrdp/update.rs (Notification, "
+                  "check_deltas, to_repository_state, SnapshotUpdate, DeltaUpdate, HashRead) and rpki 0.19.3 "
+                  "NotificationFile (list limit, stable sort); the archive is a map URI -> content plus the state "
+                  "record. SHA-256 is not modelled: digests are abstract, the premise `genuine` is an executable "
+                  "predicate on the input and is derived from an injective hash in C25.HashIntegrity. Tie: the real "
+                  "rrdp::Collector (reqwest client, XML parsing, archive files) is run through one fresh "
+                  "Run::load_repository per step (exposure hook Config::verif_rrdp_updater) against a harness-side "
+                  "HTTPS server with a fixture CA (harness/src/rrdpsrv.rs), one fresh cache directory per case; "
+                  "compared per run: LoadResult, snapshot reason, the requests received by the server in order, and "
+                  "the archive read back through the public RrdpArchive API (session, serial, stored delta hashes, "
+                  "all objects) plus what the run's ReadRepository hands out. Trusted: Coq kernel, harness, fetch "
+                  "server. Not covered: archive storage failures (I/O errors, corruption -> SnapshotReason::"
+                  "CorruptArchive), time-outs and redirects, object size limit (C38), Last-Modified / ETag "
+                  "conditional headers (a 304 is served unconditionally), concurrency of several repositories (C37), "
+                  "crashes during an update (C24), that a copy which is not Updated is not used (shape of "
+                  "collector/base.rs Run::repository, C29).",
+    "rule": "corpus: the three witnesses of the corrected defects; honest servers: walks v1<=v2<=v3<=last through 7 "
+            "(thorough 17) histories of up to 5 versions over 3 URIs x 2 contents (incl. empty deltas, publish/"
+            "withdraw and a->b->a cycles, serials 0 and 2^64-1) with 1, 2 or 5 deltas listed; every single fault "
+            "(about 140 per step: notification request, session/serial, every delta-list entry dropped / duplicated "
+            "/ re-hashed / re-pointed / renumbered, list reversed / rotated / empty / oversized / over the count "
+            "limit, snapshot entry, every file: status, foreign session/serial, wrong document type, broken after k "
+            "elements, element dropped / repeated / changed / added) at every step of a 5-step and a 3-step walk "
+            "from the local state reached so far, then the walk continues (quick: full list on one history, every "
+            "8th fault on the others); every delta-file or delta-list fault combined with a failing snapshot, then "
+            "the honest server; 300/6000 random two-session walks (forward, stay, back, session change) with 0-3 "
+            "faults per run and random limits / expiring copies; malformed: deltas re-issued with a matching hash "
+            "(outside the premise, correspondence only); distinct = distinct Coq case term; non-trivial = some run "
+            "was Updated through deltas",
+    "assumptions": ["hash integrity (premise `genuine`, visible in every theorem): a complete snapshot / delta "
+                    "document for the notified session and serial whose SHA-256 equals the hash announced for it is "
+                    "the server's; follows from injectivity of the hash on the documents considered "
+                    "(C25_injective_hash_gives_genuine)",
+                    "archive storage operations do not fail (no I/O error, no corruption of the archive file)",
+                    "per-object hashes (delta element hash vs archive meta data) compare as the object contents do",
+                    "the copy's best-before time is either passed at the start of every run or of none (config "
+                    "flag of the case); Stale vs Current does not influence what is stored"],
 }
